@@ -81,7 +81,7 @@ def d2_shapes(e):
     return False
 
 
-def compare(m, label, shapes, model, pcls, text, sname, settings, sem_factory=None):
+def compare(m, label, shapes, model, pcls, text, sname, settings, sem_factory=None, known=None):
     kw = dict(impl.with_start(model, settings))
     kw2 = dict(kw)
     if sem_factory is not None:
@@ -106,7 +106,9 @@ def compare(m, label, shapes, model, pcls, text, sname, settings, sem_factory=No
             m.add('both_foreign_exception')
         return
     import re as _re
-    if shapes and kind == 'ast-differs':
+    if known:
+        sig = known
+    elif shapes and kind == 'ast-differs':
         sig = 'ast-differs/name-over-valueless-or-binding-expression'
     elif kind == 'accept-differs/model-ok-generated-fail' and isinstance(label, str) and _re.search(r'/\(\?x\)[^/]*\n', label):
         # recorded finding: a verbose pattern that contains line breaks (they become \n escapes in generated source)
@@ -254,6 +256,72 @@ def shard_features(m, items, tier='quick'):
         m.sample({'grammar': text, 'inputs': len(inputs), 'settings': [s for s, _ in SETTINGS]})
 
 
+class ListAction:
+    """Actions that return a plain list (rule `r` only)."""
+
+    def r(self, ast):
+        return [1, 2]
+
+
+# Grammars aimed at the code generator itself: what it names, quotes and numbers.  (name, grammar, inputs, semantics, recorded-finding)
+# A recorded finding is tied to the grammar it is listed with; every other difference is a violation.
+CODEGEN_CASES = [
+    # names of an option that is not a sequence exist even when the option matches nothing
+    ('option-names-optional', "start: [x:'a'] | 'b' ;", ['', 'a', 'b'], None, None),
+    ('option-names-closure', "start: {x+:'a'} | 'b' ;", ['', 'a', 'a a', 'b'], None, None),
+    ('option-names-group', "start: (x:'a' | ()) | 'b' ;", ['', 'a', 'b'], None, None),
+    ('option-names-nested', "start: 'a' ([y:'b'] | z:'a') $ | [w:'b'] $ ;", ['a', 'a b', 'a a', 'b', ''], None, None),
+    ('option-names-named-optional', "start: n:[x:'a'] | 'b' ;", ['', 'a', 'b'], None, None),
+    # more repetitions / nested choices in one rule than there are letters for their variables
+    ('many-closures', 'start: ' + ' '.join(["{'a'}"] + ["{'b'}"] * 52 + ["{'a'}+"]) + ' $ ;', ['a', 'a b a', 'a b b a', 'b'], None, None),
+    ('many-joins', 'start: ' + ' '.join(["'b'.{'a'}"] * 27 + ["'b'%{'a'}"] * 27) + " 'b' $ ;", ['b', 'a b', 'a b a b'], None, None),
+    ('deep-choices', 'start: ' + "('a' | 'b' " * 8 + "'a'" + ')' * 8 + ' $ ;', ['a', 'b a', 'b b a', 'b ' * 8 + 'a', 'b'], None, None),
+    # rule parameters of every literal kind
+    ('params-literals', "start(None, True, 1.5, 'a b', x): 'a' p q $ ;\n\np(k=None, j=1.5, s='a b'): 'a' ;\n\nq[-1, 0, '']: 'a' ;\n", ['a a a', 'a'], 'tag', None),
+    ('params-double-colon', "start: r s $ ;\n\nr(A::B, 2): 'a' ;\n\ns(k='a::b'): 'a' ;\n", ['a a'], 'tag', None),
+    ('typed-rule-params', "start::A::B: 'a' $ ;", ['a'], 'tag', None),
+    # characters in patterns that a Python literal or a regex escape could mangle
+    ('pattern-backspace', "start: /a\x08b/ /[\x08]/ $ ;", ['a\x08b\x08', 'ab'], None, None),
+    ('pattern-nul-digit', "start: /a\x001/ $ ;", ['a\x001', 'a\x01'], None, None),
+    ('pattern-line-boundaries', "start: /a\u2028b/ /\x85+/ /[\x1c-\x1e]/ /\u2029/ $ ;", ['a\u2028b\x85\x85\x1d\u2029', 'a\nb'], None, None),
+    ('pattern-nbsp-astral', "start: /a\xa0b/ /\U0001F600+/ $ ;", ['a\xa0b\U0001F600', 'a b'], None, None),
+    ('pattern-escaped-newline', "start: /a\\\nb/ /c\\\\/ $ ;", ['a\nbc\\', 'a\\nbc'], None, None),
+    ('directive-control-chars', "@@whitespace :: /[\x85 ]+/\n@@comments :: /\x08.*?\x08/\n\nstart: 'a' 'b' $ ;", ['a\x85b', 'a\x08 x\x08b', 'a\x0bb'], None, None),
+    ('token-line-boundaries', "start: 'a\u2028b' '\x85' \"\x1d'\" $ ;", ["a\u2028b\x85\x1d'"], None, None),
+    # rule names that meet in the generated class
+    ('collide-keyword-and-escaped', "start: if if_ $ ;\n\nif: 'a' ;\n\nif_: 'b' ;\n", ['a b', 'b b'], None,
+     'rule-name-collides-in-generated-class'),
+    ('collide-config', "start: _config $ ;\n\n_config: 'a' ;\n", ['a'], None, 'rule-name-collides-in-generated-class'),
+    ('collide-module', "start: tatsu $ ;\n\ntatsu: 'a' ;\n\nb: 'b' ;\n", ['a'], None, 'rule-name-collides-in-generated-class'),
+    ('no-collision-near-misses', "start: config_ parse_ $ ;\n\nconfig_: 'a' ;\n\nparse_: 'b' ;\n", ['a b', 'a'], None, None),
+    # an action that returns a plain list
+    ('list-action', "start: r 'c' r $ | 'c' r $ | x:r 'c' $ | 'b' x+:r x+:r $ ;\n\nr: 'a' ;\n", ['a c a', 'c a', 'a c', 'b a a'], 'list', None),
+    ('list-action-repeats', "start: {r}+ $ | 'c' ','.{r}+ $ | 'b' (r) [r] $ | 'b' 'b' @:r r $ ;\n\nr: 'a' ;\n", ['a a', 'c a,a', 'b a a', 'b a', 'b b a a'], 'list', None),
+    ('list-action-named-group', "start: x:('a' r) $ ;\n\nr: 'b' ;\n", ['a b'], 'list', 'ast-differs/list-valued-action-spliced-by-model-under-a-named-group'),
+]
+
+
+def shard_codegen(m, items):
+    for name, text, inputs, sem, known in items:
+        factory = {'tag': Tagging, 'list': ListAction, None: None}[sem]
+        try:
+            model = impl.compile_text(text)
+        except Exception as ex:  # noqa
+            m.violation(f'codegen-case-does-not-compile/{name}/{type(ex).__name__}', grammar=text, error=str(ex)[:300])
+            continue
+        try:
+            pcls, src = load_generated(model)
+        except Exception as ex:  # noqa
+            sig = f'generated-source-invalid/{known}' if known else f'generated-source-invalid/{name}/{type(ex).__name__}'
+            m.violation(sig, grammar=text, error=f'{type(ex).__name__}: {ex}'[:300])
+            continue
+        m.add('programs')
+        m.add('codegen_cases')
+        for t in inputs:
+            compare(m, text, False, model, pcls, t, f'{name}/defaults', {}, factory, known=known)
+            compare(m, text, False, model, pcls, t, f'{name}/parseinfo', {'parseinfo': True}, factory, known=known)
+
+
 def shard_cuts(m, items, inputs=()):
     for name, exp, extra, _ne, _nx, _b in items:
         g = gs.Grammar(rules=[gs.Rule('start', exp)] + list(extra))
@@ -280,6 +348,7 @@ def run(rc):
     settings = SETTINGS[:1] + SETTINGS[4:] if quick else SETTINGS
     rc.pmap(shard_exprs, exps, inputs=inputs, settings=settings)
     rc.pmap(shard_features, FEATURE_GRAMMARS, chunk=1, tier=rc.tier)
+    rc.pmap(shard_codegen, CODEGEN_CASES, chunk=2)
     c = rc.total.counts
     rc.rule = ('every expression tree of the C01 alphabet up to the node bound (plus helper rules) and a family of feature grammars '
                '(directives, keywords, parameters, Python-keyword rule names, upper-case rules, parseinfo, Python-literal-like tokens, quotes, '
